@@ -77,9 +77,12 @@ func debugDump(p *Prog, target, region, inline string) {
 		fmt.Println("no such function", target)
 		os.Exit(2)
 	}
-	w := &Walker{P: p, Inline: map[*ssaFunction]bool{}}
+	w := &Walker{P: p}
+	if inline != "" {
+		w.Inline = map[*ssaFunction]bool{}
+	}
 	for _, s := range strings.Split(inline, ",") {
-		if s == "" {
+		if s == "" || s == "none" {
 			continue
 		}
 		r, n := splitFn(s)
